@@ -12,7 +12,7 @@ from harness.common import Machinery
 ENUM_CFG = "INIT EnumInit\nNEXT EnumNext\nCONSTRAINT EnumEmit\nINVARIANT LawsHold\nCHECK_DEADLOCK FALSE\n"
 JUDGE_CFG = "INIT JudgeInit\nNEXT JudgeNext\nCHECK_DEADLOCK FALSE\n"
 DRIVER = "checks.c19_driver:c19_driver"
-N_RANDOM = 30000          # random texts and as many random values (thorough)
+N_RANDOM = 15000          # random texts and as many random values (thorough)
 
 
 def key(c):
